@@ -104,6 +104,8 @@ impl MT210 {
             }
         }
 
+        crate::parser::utils::verify_parser_complete(&parser)?;
+
         Ok(MT210 {
             transaction_reference,
             account_identification,
